@@ -193,6 +193,24 @@ async def one_pair(loop, v, name, seq, txv, txb, rxv, rxb) -> Result:
             r.bad(f"C07:decode-mismatch:{name}", f"v{v} {name}: returned {result!r} want {rxv!r} from {rxb.hex()}")
         if _trailing:
             r.bad(f"C07:trailing-data:{name}", f"v{v} {name}: {_trailing[:1]} from {rxb.hex()}")
+    # the NCP refuses the command: an invalidCommand frame (0x58, one status field) under the call's own sequence number
+    # goes through the receive path with ITS schema, whatever command is pending, and ends the call with InvalidCommandError
+    if name != "invalidCommand":
+        h._seq = seq
+        reason = [0x36, 0x37, 0x3A, 0x00, 0xFE][seq % 5]
+        # the reason is one EzspStatus byte up to v13 and a 32-bit unified status from v14 on
+        refusal = refezsp.header(v, seq, 0x58, refezsp.RESPONSE) + (bytes([reason]) if v < 14 else bytes([reason, 0, 0, 0]))
+        gw.on_send = lambda d: loop.call_soon(ezsp.frame_received, refusal)
+        try:
+            await asyncio.wait_for(h.command(name, *list(txv)), 30)
+            r.bad(f"C07:refusal-not-reported:{name}", f"v{v} {name}: call returned although the NCP answered invalidCommand")
+        except asyncio.TimeoutError:
+            r.bad("C07:refusal-not-decoded", f"v{v} {name}: invalidCommand reply {refusal.hex()} did not end the call (pending rx schema {rx_schema!r})")
+        except Exception as ex:
+            if type(ex).__name__ != "InvalidCommandError":
+                r.bad(f"C07:refusal-raises:{type(ex).__name__}", f"v{v} {name}: {ex!r}")
+        r.cls("invalidCommand-refusal")
+        gw.on_send = lambda d: loop.call_soon(ezsp.frame_received, reply)
     # unsolicited: same frame with nothing pending -> callbacks
     _trailing.clear()
     got_cb.clear()
